@@ -148,6 +148,9 @@ class Model:
         """the unit with every private (static) helper inlined into its callers, except the functions named in `keep`
         (those that carry a role of their own) and recursive / address-taken ones.  Splitting a function into
         private helpers, or merging such helpers, does not change this view."""
+        # functions defined in the public headers (static inline API) are not private helpers of the unit
+        pm = self.plain.get(unit)
+        keep = set(keep) | {f.name for f in (pm.defined() if pm is not None else []) if '/include/' in (f.file or '')}
         key = (unit, tuple(sorted(keep)))
         if key in self._focus:
             return self._focus[key]
@@ -253,6 +256,24 @@ class Model:
             self.stats['insts_inl'] = sum(len(f.inst) for f in self.inl.defined())
 
     # -- lookups ---------------------------------------------------------------------
+    def raw(self, unit):
+        """the unit as compiled, locals promoted to SSA and nothing else: no helper inlined, no redundancy removed"""
+        if not hasattr(self, '_raw'):
+            self._raw = {}
+        if unit not in self._raw:
+            bc = os.path.join(self.work, unit + '.bc.m.bc')
+            js = os.path.join(self.work, unit + '.raw.json')
+            with open(js, 'wb') as fh:
+                fh.write(run([IRDUMP, bc]))
+            self._raw[unit] = ir.Module.load(js)
+        return self._raw[unit]
+
+    def other_config(self):
+        """the per-unit view of the same tree built with the other assertion configuration (release <-> assert)"""
+        if getattr(self, '_other', None) is None:
+            self._other = Model(config='assert' if self.config == 'release' else 'release', want_inl=False, repo=self.repo)
+        return self._other
+
     def pfn(self, name):
         """plain (un-inlined) definition of a function, searching all units (then the amalgam, which
         also holds header static-inline functions that no unit emitted)"""
